@@ -21,11 +21,27 @@ if REPO not in sys.path:
 
 
 class _Timeout(Exception):
-    pass
+    """the case used more than its budget of CPU time (a non-terminating real function ends here)"""
+
+
+class _WallTimeout(BaseException):
+    """wall-clock backstop (10x the budget): the machine is busy or the time is spent in child processes - inconclusive, never a failure"""
 
 
 def _alarm(signum, frame):
-    raise _Timeout()
+    if signum == signal.SIGPROF:
+        raise _Timeout()
+    raise _WallTimeout()
+
+
+def _arm(per_case):
+    signal.setitimer(signal.ITIMER_PROF, per_case)
+    signal.alarm(10 * per_case)
+
+
+def _disarm():
+    signal.setitimer(signal.ITIMER_PROF, 0)
+    signal.alarm(0)
 
 
 def load_contract_modules():
@@ -71,19 +87,22 @@ def main():
 
     nat = NATIVES[req["qual"]]
     signal.signal(signal.SIGALRM, _alarm)
+    signal.signal(signal.SIGPROF, _alarm)
     per_case = int(req.get("case_timeout", 20))
     if "args" in req:
-        signal.alarm(per_case)
+        _arm(per_case)
         try:
             with contextlib.redirect_stdout(io.StringIO()):
                 ok, detail = nat.check(req["args"])
             out = {"ok": bool(ok), "detail": jsonable(detail), "evaluations": 1}
         except _Timeout:
-            out = {"ok": False, "detail": f"timeout after {per_case}s", "timeout": True, "evaluations": 1}
+            out = {"ok": False, "detail": f"no result within {per_case} s of CPU time", "timeout": True, "evaluations": 1}
+        except _WallTimeout:
+            out = {"ok": None, "detail": f"inconclusive: wall-clock backstop of {10 * per_case} s reached", "evaluations": 1}
         except Exception:
             out = {"ok": None, "detail": "harness exception: " + traceback.format_exc()[-1500:], "evaluations": 1}
         finally:
-            signal.alarm(0)
+            _disarm()
         print(json.dumps(out))
         return
     rng = random.Random(req.get("seed", 0))
@@ -99,6 +118,7 @@ def main():
     # a re-used object) then shows up as a failure of the case itself, whose contract is checked against independent references.
     rng_h = random.Random(req.get("seed", 0) + 7919)
     last_cost = 0.0
+    inconclusive = 0
     for _ in range(n):
         if time.time() > t_end:
             break
@@ -110,26 +130,30 @@ def main():
             samples.append(jsonable(args))
         if last_cost < 1.0 and rng_h.random() < 0.5:
             sib = _perturbed(jsonable(args), rng_h)
-            signal.alarm(per_case)
+            _arm(per_case)
             try:
                 with contextlib.redirect_stdout(io.StringIO()):
                     nat.check(sib)
             except BaseException:  # noqa: BLE001 - the sibling only creates history (it may violate the case's precondition)
                 pass
             finally:
-                signal.alarm(0)
-        signal.alarm(per_case)
-        t_case = time.time()
+                _disarm()
+        _arm(per_case)
+        t_case = time.process_time()
         try:
             with contextlib.redirect_stdout(io.StringIO()):
                 ok, detail = nat.check(args)
         except _Timeout:
-            ok, detail = False, f"timeout after {per_case}s"
+            ok, detail = False, f"no result within {per_case} s of CPU time"
+        except _WallTimeout:
+            inconclusive += 1
+            last_cost = float(per_case)
+            continue
         except Exception:
             ok, detail = None, "harness exception: " + traceback.format_exc()[-1500:]
         finally:
-            signal.alarm(0)
-            last_cost = time.time() - t_case
+            _disarm()
+            last_cost = time.process_time() - t_case
         if ok is not True:
             rec = {"args": jsonable(args), "ok": ok, "detail": jsonable(detail)}
             text = json.dumps(rec["args"], sort_keys=True) + " " + json.dumps(rec["detail"])
@@ -142,7 +166,11 @@ def main():
             failures.append(rec)
             if len(failures) >= 5:
                 break
-    print(json.dumps({"ok": not failures, "evaluations": evals, "distinct": len(distinct), "failures": failures + known_failures, "samples": samples}))
+    out = {"ok": not failures, "evaluations": evals - inconclusive, "distinct": len(distinct), "failures": failures + known_failures, "samples": samples, "inconclusive_wall_timeouts": inconclusive}
+    if not failures and evals and inconclusive * 2 > evals:
+        out["ok"] = None
+        out["detail"] = f"{inconclusive} of {evals} cases hit the wall-clock backstop: the bounded stand-in could not run"
+    print(json.dumps(out))
 
 
 if __name__ == "__main__":
